@@ -349,6 +349,8 @@ pub fn corpus() -> Vec<GenMsg> {
         mk("OPTIONS sip:b@example.org SIP/2.0", &[via, from, "Content-Length : 4", to, cid, cs], body4),
         mk("OPTIONS sip:b@example.org SIP/2.0", &[via, from, "Content-Length  :   4", to, cid, cs], body4),
         mk("OPTIONS sip:b@example.org SIP/2.0", &[via, from, "l :4", to, cid, cs], body4),
+        mk("OPTIONS sip:b@example.org SIP/2.0", &[via, from, "Content-Length\t: 4", to, cid, cs], body4),
+        mk("OPTIONS sip:b@example.org SIP/2.0", &[via, from, "l \t:\t4", to, cid, cs], body4),
         mk("OPTIONS sip:b@example.org SIP/2.0", &[via, from, to, cid, cs, "Content-Length: 0", "lr-x: 17"], b""),
         mk("OPTIONS sip:b@example.org SIP/2.0", &[via, "language: 9", from, to, cid, cs, "Content-Length: 4"], body4),
         mk("OPTIONS sip:b@example.org SIP/2.0", &[via, "X-Content-Length: 99", from, to, cid, cs, "l: 4", "Content-Length-X: 7"], body4),
@@ -531,8 +533,10 @@ fn msg_strategy() -> BoxedStrategy<GenMsg> {
                 lines.push(format!("X-Pad: {}", "p".repeat(pad)));
             }
             let name = CL_NAMES[pick_idx(nsel, CL_NAMES.len())];
-            let sep = if fold_value { "\r\n ".to_string() } else { " ".repeat(ws_after) };
-            let cl = format!("{name}{}:{sep}{}", " ".repeat(ws_before), body.len());
+            // HCOLON = *( SP / HTAB ) ":" SWS — blanks and tabs in any mix (chosen by the name selector's low bits)
+            let ws = |n: usize, bits: u16| -> String { (0..n).map(|i| if (bits >> i) & 1 == 1 { '\t' } else { ' ' }).collect() };
+            let sep = if fold_value { "\r\n ".to_string() } else { ws(ws_after, nsel >> 4) };
+            let cl = format!("{name}{}:{sep}{}", ws(ws_before, nsel >> 8), body.len());
             let at = pick_idx(pos, lines.len() + 1);
             lines.insert(at, cl);
             let mut m = GenMsg {
